@@ -44,6 +44,13 @@ UN_PRE = {
     'expit': lambda v: np.all(np.abs(v) <= 4), 'gammaln': lambda v: np.all((v >= 0.4) & (v <= 5)),
     'psi': lambda v: np.all((v >= 0.4) & (v <= 5)),
 }
+# forward-only (the tracer has no method for them): used by the forward-mode properties C11/C12/C14
+UN_FWD = {'arcsin': algopy.arcsin, 'arccos': algopy.arccos, 'arctan': algopy.arctan, 'sinh': algopy.sinh,
+          'cosh': algopy.cosh, 'tanh': algopy.tanh}
+UN.update(UN_FWD)
+UN_PRE.update({'arcsin': lambda v: np.all(np.abs(v) <= 0.8), 'arccos': lambda v: np.all(np.abs(v) <= 0.8),
+               'arctan': lambda v: np.all(np.abs(v) <= 3), 'sinh': lambda v: np.all(np.abs(v) <= 3),
+               'cosh': lambda v: np.all(np.abs(v) <= 3), 'tanh': lambda v: np.all(np.abs(v) <= 3)})
 UN_NONLINEAR = set(UN) - {'negative', 'sign', 'absolute'}
 UN_CHEAP = ['sin', 'cos', 'exp', 'expm1', 'log', 'log1p', 'sqrt', 'square', 'reciprocal', 'negative', 'tan',
             'absolute', 'sign']
@@ -164,6 +171,23 @@ def step(ins, regs):
         return algopy.symvec(a + a.T, ins[2])
     if op == 'vecsym':
         return algopy.vecsym(regs[ins[1]])
+    # ---- forward-only operations (no tracer support / no pullback) ----
+    if op == 'minmax':
+        return getattr(algopy, ins[1])(regs[ins[2]], regs[ins[3]])
+    if op == 'tri':
+        return getattr(algopy, ins[1])(regs[ins[2]], ins[3])
+    if op == 'expm':
+        return algopy.expm(regs[ins[1]] * ins[2])
+    if op == 'abs':
+        return abs(regs[ins[1]])
+    if op == 'svd_full':       # sign/layout invariant use of all three factors: U diag(s) V^T (reconstruction)
+        a = regs[ins[1]]
+        U, sv, V = algopy.svd(a)
+        k = sv.shape[0]
+        if isinstance(a, np.ndarray):
+            # numpy.linalg.svd returns V^H, UTPM.svd returns V (layout convention, see C10's statement)
+            return np.dot(U[:, :k] * sv, V[:k, :])
+        return algopy.dot(U[:, :k] * sv, V[:, :k].T)
     raise KeyError(op)
 
 
@@ -274,7 +298,19 @@ def precond(ins, regs):
             if op == 'symvec':
                 return True
             return bool(_gaps(np.linalg.eigvalsh(m + m.T)) >= 0.3)
-        if op == 'svd_s':
+        if op == 'minmax':
+            a, b = np.asarray(regs[ins[2]]), np.asarray(regs[ins[3]])
+            return a.shape == b.shape and not _is_cplx(a) and not _is_cplx(b) and bool(np.all(np.abs(a - b) >= 0.05))
+        if op == 'tri':
+            m = np.asarray(regs[ins[2]])
+            return m.ndim == 2
+        if op == 'abs':
+            v = np.asarray(regs[ins[1]])
+            return not _is_cplx(v) and bool(np.all(np.abs(v) >= 0.05))
+        if op == 'expm':
+            m = np.asarray(regs[ins[1]]) * ins[2]
+            return m.ndim == 2 and m.shape[0] == m.shape[1] and not _is_cplx(m) and bool(np.abs(m).sum(axis=0).max() <= 0.5)
+        if op in ('svd_s', 'svd_full'):
             m = np.asarray(regs[ins[1]])
             if m.ndim != 2 or _is_cplx(m):
                 return False
@@ -303,6 +339,7 @@ def _magnitude_ok(v):
 FAMILIES_ALL = ['un', 'un', 'special', 'unp', 'bin', 'bin', 'binc', 'binc', 'pow', 'neg', 'get', 'get', 'T', 'reshape',
                 'buf', 'set', 'set', 'rmw', 'rmw', 'sum', 'prod', 'trace', 'dot', 'dot', 'dotc', 'outer', 'inv', 'solve', 'det',
                 'logdet', 'qr', 'chol', 'eigh', 'svd', 'lu', 'fft', 'tile', 'diag', 'symvec']
+FAMILIES_FWD_ONLY = ['unfwd', 'minmax', 'tri', 'abs', 'expm', 'svdfull']
 
 
 class GenState:
@@ -437,7 +474,7 @@ def _basic_index(draw, shape):
 
 @st.composite
 def programs(draw, n_inputs=(1, 2), max_len=8, families=None, out='any', K=4, in_rank=(0, 1, 2), max_side=3,
-             allow_set_broadcast=True, allow_ndim_dot=False, min_len=1, first=None, allow_ones=True):
+             allow_set_broadcast=True, allow_ndim_dot=False, min_len=1, first=None, allow_ones=True, raw_vectors=True):
     """draw (inputs' probe points, program).  Returns dict(pts=[array (K,)+shape ...], prog=[...], out=reg)."""
     fams = list(families or FAMILIES_ALL)
     nin = draw(st.integers(n_inputs[0], n_inputs[1]))
@@ -457,6 +494,7 @@ def programs(draw, n_inputs=(1, 2), max_len=8, families=None, out='any', K=4, in
         p = draw(gen.float_array((K,) + shape, st.one_of(gen.nice_floats(-2.0, 2.0), gen.dyadic_elements(8, 4)), sparse=False))
         pts.append(p)
     S = GenState(pts)
+    S.raw_vectors = raw_vectors
     L = draw(st.integers(min_len, max_len))
     if first is not None:
         _emit_family(draw, S, first, allow_set_broadcast, allow_ndim_dot, allow_ones)
@@ -474,7 +512,8 @@ def programs(draw, n_inputs=(1, 2), max_len=8, families=None, out='any', K=4, in
 FIRST_INPUT = {'inv': 'regular', 'det': 'regular', 'logdet': 'posdet', 'solve': 'regular', 'lu': 'regular', 'qr': 'fullrank',
                'chol': 'square', 'eigh': 'gapsym', 'svd': 'svd', 'trace': 'matrix', 'T': 'matrix', 'diag': 'vecorsquare',
                'symvec': 'square', 'outer': 'vector', 'dot': 'vecormat', 'dotc': 'vecormat', 'prod': 'vector', 'tile': 'vecormat',
-               'sum': 'vecormat', 'reshape': 'vecormat', 'get': 'vecormat', 'fft': 'vecormat'}
+               'sum': 'vecormat', 'reshape': 'vecormat', 'get': 'vecormat', 'fft': 'vecormat', 'tri': 'matrix',
+               'expm': 'square', 'svdfull': 'svd', 'minmax': 'vecormat'}
 
 
 @st.composite
@@ -536,6 +575,7 @@ def _real(S):
 
 
 def _emit_family(draw, S, fam, allow_set_broadcast=True, allow_ndim_dot=False, allow_ones=True):
+    raw_vectors = getattr(S, 'raw_vectors', True)
     real = _real(S)
     if fam in ('un', 'special'):
         a = _pick(draw, S, real)
@@ -711,7 +751,7 @@ def _emit_family(draw, S, fam, allow_set_broadcast=True, allow_ndim_dot=False, a
         if fam == 'lu':
             return S.try_emit(['lu', a, draw(st.sampled_from([1, 2]))])
         if fam == 'eigh':
-            kind = draw(st.sampled_from(['val', 'val', 'vec', 'fun']))
+            kind = draw(st.sampled_from(['val', 'val', 'vec', 'fun'] if raw_vectors else ['val', 'fun', 'val']))
             if kind == 'fun':
                 return S.try_emit(['eigh_fun', a])
             return S.try_emit(['eigh_sym', a, 0 if kind == 'val' else 1])
@@ -763,6 +803,48 @@ def _emit_family(draw, S, fam, allow_set_broadcast=True, allow_ndim_dot=False, a
                 S.try_emit(['bin', 'mul', z, S.nreg() - 1])
                 S.try_emit(['real', S.nreg() - 1])
         return ok
+    if fam == 'unfwd':
+        name = draw(st.sampled_from(sorted(UN_FWD)))
+        a = _pick(draw, S, lambda q: real(q) and all(precond(['un', name, q], S.regs[k]) for k in range(S.K)))
+        if a is None:
+            b = _pick(draw, S, real)
+            if b is None or not S.try_emit(['un', 'sin', b]) or not S.try_emit(['binc', 'mul', S.nreg() - 1, 0.5, 'r']):
+                return False
+            a = S.nreg() - 1
+        return S.try_emit(['un', name, a])
+    if fam == 'minmax':
+        a = _pick(draw, S, lambda r: real(r) and S.ndim(r) >= 1)
+        if a is None:
+            return False
+        b = _pick(draw, S, lambda r: real(r) and S.shape(r) == S.shape(a) and r != a)
+        if b is None:
+            if not S.try_emit(['un', 'cos', a]):
+                return False
+            b = S.nreg() - 1
+        return S.try_emit(['minmax', draw(st.sampled_from(['minimum', 'maximum'])), a, b])
+    if fam == 'tri':
+        a = _pick(draw, S, lambda r: S.ndim(r) == 2 and real(r))
+        if a is None:
+            return False
+        return S.try_emit(['tri', draw(st.sampled_from(['triu', 'tril'])), a, draw(st.sampled_from([0, 0, 1, -1]))])
+    if fam == 'abs':
+        a = _pick(draw, S, lambda q: real(q) and all(precond(['abs', q], S.regs[k]) for k in range(S.K)))
+        if a is None:
+            return False
+        return S.try_emit(['abs', a])
+    if fam == 'expm':
+        a = _pick(draw, S, lambda r: S.ndim(r) == 2 and S.shape(r)[0] == S.shape(r)[1] and real(r))
+        if a is None:
+            return False
+        for c in (0.25, 0.1, 0.05, 0.02):
+            if S.try_emit(['expm', a, c]):
+                return True
+        return False
+    if fam == 'svdfull':
+        a = _pick(draw, S, lambda r: S.ndim(r) == 2 and real(r))
+        if a is None:
+            return False
+        return S.try_emit(['svd_full', a])
     if fam == 'tile':
         a = _pick(draw, S, lambda r: S.ndim(r) in (1, 2) and not S.cplx(r) and int(np.prod(S.shape(r))) <= 6)
         if a is None:
@@ -880,7 +962,7 @@ def features(case):
                 f.add('real-pow')
         if op in ('dot', 'dotc', 'outer'):
             f.add(op)
-        if op in ('inv', 'solve', 'det', 'logdet', 'qr', 'qr_full', 'chol_spd', 'eigh_sym', 'eigh_fun', 'svd_s', 'lu'):
+        if op in ('inv', 'solve', 'det', 'logdet', 'qr', 'qr_full', 'chol_spd', 'eigh_sym', 'eigh_fun', 'svd_s', 'lu', 'expm', 'svd_full'):
             f.add('linalg')
             f.add('linalg:' + op)
         if op in ('fft', 'ifft'):
